@@ -154,9 +154,10 @@ def run_property(pid, tier, seed, root):
     with ThreadPoolExecutor(max_workers=6) as ex:
         futs = [ex.submit(do, j) for j in alljobs]
         sfut = None
-        if cfg.get('spec_vs_python'):
+        if cfg.get('spec_vs_python') or cfg.get('spec_conformance_c19'):
             import spec_conformance
-            sfut = ex.submit(spec_conformance.main, os.path.join(build, 'spec_conf'), seed)
+            sfut = ex.submit(spec_conformance.main_c19 if cfg.get('spec_conformance_c19') else spec_conformance.main,
+                             os.path.join(build, 'spec_conf'), seed)
         kfut = None
         if kani_run is not None and cfg.get('kani'):
             kfut = ex.submit(kani_run.run_all, pid, cfg['kani'], tier, root, build)
